@@ -1062,10 +1062,12 @@ func hsCover(t testing.TB, res *vResult, g *hsGraph, c *hsCombo, prop string, li
 				st.Steps++
 				res.Hit(e.Act)
 				switch e.Act { // vacuity accounting per payload kind / delivery operation
-				case "AdvInit":
-					res.Hit("pk:" + e.Args[0])
-				case "AdvResp":
-					res.Hit("pk:" + e.Args[1])
+				case "AdvInit", "AdvResp":
+					pk := e.Args[len(e.Args)-2+map[string]int{"AdvInit": 1, "AdvResp": 0}[e.Act]]
+					res.Hit("pk:" + pk)
+					if pk == "keep" || pk == "swap" {
+						res.Hit(fmt.Sprintf("complete-cert:v%d", w.advVer()))
+					}
 				case "Deliver":
 					res.Hit("op:" + e.Args[2])
 					if src := w.slot(e.Args[1]); !src.honest && e.Args[2] == "id" && !w.slot(e.Args[0]).m.Failed() && !w.slot(e.Args[0]).completed {
